@@ -239,6 +239,13 @@ extend("C03", "the byte path's alias chase (Cache.collectWireChase) takes an ent
 extend("C11", "the inline pass over a datagram (udpEngine.serveInline with a scripted pipeline that stages / declines / panics) ends in exactly one of: reply in the reader's burst, job handed back unanswered and marked for replay, job released - and a staged reply is always terminal.")
 extend("C13", "a SERVFAIL served from the failure cache (Cache.handleFailureHit) is marked as a cached failure in the request tree's own meta - also when that is a detached one and not the chain's - while it passes the writers above, so wrappers treat it as terminal; EDE 13 for EDNS clients.")
 
+# eleventh round (second batch of the third seeding round)
+extend("C04", "a hit folds the entry's whole lifetime into the request: boundRequestToEntryLifetime / boundRequestTo leave the request tree's bound no later than stored+ttl and the entry's own cut, and never later than it was.")
+extend("C08", "the write-back (cache.ResponseWriter.WriteMsg with every store as a recording sink) files the entry - shared or scoped - and any denial proof / subtree cut with exactly the lease accumulated in the request tree's meta; the alias chase before it inherits the sub-query's lease (VerifC04_ChaseInheritsLifetime, also registered here).")
+extend("C09", "the revocation store read: readTombstones reports 'nothing revoked' only for a missing file, 'corrupt' for every decode failure of an existing one (end-of-file at once included), an error for an unopenable one; and AutoTA fails closed for an unopenable store exactly as for a corrupt one.")
+extend("C12", "every transport attempt is debited first: in Resolver.exchange (dials and exchanges as counting stubs; retries, TCP fallback and exploration probes) the number of dials never exceeds the outbound debits the ledger accepted, and a spent budget means no dial and a request-local error.")
+extend("C18", "the reload model includes the root name as an entry.")
+
 NA_REASON = "no check registered yet: the solver-based harness for this property is still being built in this session (see DESIGN.md §5 for the plan)"
 def main():
     props = [json.loads(l) for l in open(os.path.join(ROOT, "properties.jsonl"))]
